@@ -153,6 +153,7 @@ def run(ctx):
         "idle expiry and the scale-in cool-down are schedule choices, not wall-clock",
         "timer.Timer.Stop waits for a running callback and prevents later ones (Close's k1/k2 steps)",
         "clients return every resource they obtained exactly once (Put(resource) or Put(nil))",
+        "a factory call whose get gave up (context expired) completes later as an environment step; its result belongs to nobody",
     ]
 
     # ------------------------------------------------------------------ replay of a stored violation
@@ -183,7 +184,7 @@ def run(ctx):
     W = "auto" if thorough else 4
     mcs = [("steady 2x2", MC_CLEAN, consts(sweeps=1, ff=True, pn=True)),
            ("setcap+close 2x2 (no cut needed since fix 98e158f)", MC_CLEAN, consts(setcap=2, close=True)),
-           ("scale-in 2x1 cut", MC_CUT, consts(rounds=1, sweeps=1, ticks=1))]
+           ("scale-in 2x1 cut, context expiry during factory calls", MC_CUT, consts(rounds=1, sweeps=1, ticks=1, to=True))]
     if thorough:
         mcs += [("scale-in 2x1 two ticks cut", MC_CUT, consts(rounds=1, sweeps=1, ticks=2)),
                 ("setcap+close+sweep 2x2 factory failures", MC_CLEAN, consts(setcap=2, close=True, sweeps=1, ff=True, pn=True)),
@@ -203,9 +204,10 @@ def run(ctx):
         return label, r
 
     # ------------------------------------------------------------------ 2. schedule generation
-    gens = [("scalein3", consts(clients=3, rounds=1, ticks=1), "mc", None)]
-    sims = [("all3", consts(clients=3, rounds=1, sweeps=1, ticks=1, setcap=2, close=True, ff=True, pn=True), 120),
-            ("scalein", consts(sweeps=1, ticks=1, ff=True, pn=True), 120),
+    gens = [("scalein3", consts(clients=3, rounds=1, ticks=1), "mc", None),
+            ("late-factory", consts(clients=2, rounds=1, to=True), "mc", None)]
+    sims = [("all3", consts(clients=3, rounds=1, sweeps=1, ticks=1, setcap=2, close=True, ff=True, pn=True, to=True), 120),
+            ("scalein", consts(sweeps=1, ticks=1, ff=True, pn=True, to=True), 120),
             ("steady", consts(clients=3, rounds=2, max=3, init=1, sweeps=2, ff=True, pn=True, to=True), 120)]
     if not thorough:
         sims = [("all3", sims[0][1], 200)]
